@@ -34,6 +34,10 @@ CHECKS['C12'] = dict(engine='W-loop', level='exploration', design='5/C12',
    text='seeded search over 1-12 clients with gapped connection slots (connect, disconnect some, connect more), 0-20 queued command lines each delivered in one or many recv() segments at seeded cycles, perpetual single-character-mode users, commands that call command() several times, users joining and leaving mid-run, run by the real backend loop and process_user_command/get_user_command; oracle per cycle from the service log: a user whose received bytes complete a command is served in that very cycle, exactly once, with the head of its FIFO; command() calls all execute. Sampling, not proof.',
    note='a cycle is one pass of the backend loop (= one epoll_wait of the simulated kernel); what is buffered is derived from the bytes recv() actually returned',
    technique='deterministic simulation with fault injection (seeded arrival patterns and disconnects, per-cycle fairness model)')
+CHECKS['C05'] = dict(engine='W-sweep', level='fault_enumeration', design='5/C05',
+   text='per scenario (a seeded frame nest started by a user command, a disconnect, a call_out or a heart beat: call_other, function pointers, efun callbacks, nested catch, applies made by efuns, loads and clones with failing create(), natural errors) a fault-free run counts the executed instructions and then one simulated run per instruction index injects a catchable LPC error there (all indices up to 400, sampled beyond) plus eval-cost exhaustion at sampled indices; oracles: driver-entry registers (value/control stack depth, error-context depth, command-giver save stack, limit flags) equal the fault-free ones, LPC-level frame check after every catch, the innermost catch yields exactly the injected message, and a fixed probe evaluation afterwards behaves as in the fault-free run. Fault points are enumerated per scenario; scenarios are sampled.',
+   note='side effects made before the error are allowed; error sites are instruction boundaries of LPC code (errors raised in the middle of an efun are represented by the natural-error leaves only)',
+   technique='deterministic simulation with fault injection (error injected at every executed instruction of seeded frame nests, fork-per-fault-point)')
 PENDING = 'check not built yet (work in progress, see DESIGN.md section 10)'
 
 def main():
